@@ -1,13 +1,17 @@
 package interpreter
 
 //verif:pkg interpreter
+//verif:generate python3 tools/gen_c05_tables.py
+//verif:overlay interpreter/zz_verif_c05_tables.go=build/gen/C05/tables.go
 //verif:intercept (*github.com/ysugimoto/falco/v2/interpreter/http.Request).Clone agCloneRequest
 
 import (
 	gocontext "context"
+	"io"
 	ghttp "net/http"
 	"net/url"
 	"strings"
+	"sync/atomic"
 	"time"
 
 	"github.com/ysugimoto/falco/v2/ast"
@@ -111,11 +115,15 @@ func agInterp(scope context.Scope) *Interpreter {
 	i := New()
 	i.ctx = context.New()
 	i.process = process.New()
-	i.ctx.Request = ihttp.WrapRequest(&ghttp.Request{Method: "GET", Header: ghttp.Header{}, URL: &url.URL{Path: "/x"}})
-	i.ctx.BackendRequest = ihttp.WrapRequest(&ghttp.Request{Method: "GET", Header: ghttp.Header{}, URL: &url.URL{Path: "/x"}})
-	i.ctx.BackendResponse = ihttp.WrapResponse(&ghttp.Response{StatusCode: 200, Header: ghttp.Header{}})
-	i.ctx.Object = ihttp.WrapResponse(&ghttp.Response{StatusCode: 200, Header: ghttp.Header{}})
-	i.ctx.Response = ihttp.WrapResponse(&ghttp.Response{StatusCode: 200, Header: ghttp.Header{}})
+	body := func() io.ReadCloser { return io.NopCloser(strings.NewReader("")) }
+	i.ctx.Request = ihttp.WrapRequest(&ghttp.Request{Method: "GET", Header: ghttp.Header{}, URL: &url.URL{Path: "/x"}, Body: body(), RemoteAddr: "192.0.2.7:4711", Host: "example.com", Proto: "HTTP/1.1"})
+	i.ctx.BackendRequest = ihttp.WrapRequest(&ghttp.Request{Method: "GET", Header: ghttp.Header{}, URL: &url.URL{Path: "/x"}, Body: body(), RemoteAddr: "192.0.2.7:4711", Host: "example.com", Proto: "HTTP/1.1"})
+	i.ctx.BackendResponse = ihttp.WrapResponse(&ghttp.Response{StatusCode: 200, Header: ghttp.Header{}, Body: body()})
+	i.ctx.Object = ihttp.WrapResponse(&ghttp.Response{StatusCode: 200, Header: ghttp.Header{}, Body: body()})
+	i.ctx.Response = ihttp.WrapResponse(&ghttp.Response{StatusCode: 200, Header: ghttp.Header{}, Body: body()})
+	i.ctx.Backend = agBackend
+	i.ctx.Backends = map[string]*value.Backend{"F_origin": agBackend}
+	i.ctx.Ratecounters["rc_verif"] = value.NewRatecounter(&ast.RatecounterDeclaration{Meta: &ast.Meta{}, Name: &ast.Ident{Meta: &ast.Meta{}, Value: "rc_verif"}})
 	i.SetScope(scope)
 	return i
 }
@@ -299,6 +307,181 @@ func VerifCompareAgreement() {
 	nondet.Observe("cell", accepted, err != nil, literal)
 	if accepted {
 		nondet.Assert(err == nil, "the simulator fails on a comparison the linter accepts ("+lt+" "+op+" "+rt+")")
+		nondet.Cover("accepted")
+	} else {
+		nondet.Cover("rejected")
+	}
+}
+
+// ---- predefined variables: reference table (YAML) vs linter vs simulator
+
+var agBackend = &value.Backend{Healthy: &atomic.Bool{}, Value: &ast.BackendDeclaration{Meta: &ast.Meta{}, Name: &ast.Ident{Meta: &ast.Meta{}, Value: "F_origin"},
+	Properties: []*ast.BackendProperty{{Meta: &ast.Meta{}, Key: &ast.Ident{Meta: &ast.Meta{}, Value: "host"}, Value: &ast.String{Meta: &ast.Meta{}, Value: "example.com"}}}}}
+
+const agBackendDecl = "backend F_origin {\n  .host = \"example.com\";\n}\nratecounter rc_verif {}\n"
+
+func agOn(on []string, scope string) bool {
+	for _, o := range on {
+		if strings.ToLower(o) == scope {
+			return true
+		}
+	}
+	return false
+}
+
+// agRun parses src, lints it, and executes the body of its (last) subroutine in scope si.
+func agLintAndRun(src string, si int, prepare func(i *Interpreter)) (accepted bool, err error, ok bool) {
+	errs, ok := agLintErrors(src)
+	if !ok {
+		return false, nil, false
+	}
+	vcl, _ := parser.New(lexer.NewFromString(src)).ParseVCL()
+	var body []ast.Statement
+	for _, st := range vcl.Statements {
+		if sub, is := st.(*ast.SubroutineDeclaration); is {
+			body = sub.Block.Statements
+		}
+	}
+	i := agInterp(agScopeValues[si])
+	if prepare != nil {
+		prepare(i)
+	}
+	_, _, _, err = i.ProcessBlockStatement(body, DebugPass, false)
+	return len(errs) == 0, err, true
+}
+
+// agHostBound: variables whose simulator implementation needs host facilities
+// the engine does not model (user-agent database, xid, md5 of the VCL, network
+// interfaces): for these only the linter is compared with the table.
+func agHostBound(name string) bool {
+	for _, p := range []string{"client.bot.", "client.browser.", "client.class.", "client.display.", "client.os.", "client.platform.", "req.xid", "req.vcl.md5", "server.ip"} {
+		if strings.HasPrefix(name, p) {
+			return true
+		}
+	}
+	return false
+}
+
+func agErrLine(err error) string {
+	if err == nil {
+		return ""
+	}
+	return strings.Split(err.Error(), "\n")[0]
+}
+
+// VerifPredefinedGet: reading predefined variable V (any of the bundled
+// reference table) in scope SCOPE: the linter accepts the read exactly when
+// the table lists the scope, and the simulator then yields a value.
+func VerifPredefinedGet() {
+	si := nondet.Param("SCOPE")
+	scope := agScopes[si]
+	v := zzPvars[nondet.Choice("v", len(zzPvars))]
+	name := strings.Replace(v.name, "%any%", "X-Verif", 1)
+	if strings.HasPrefix(v.name, "backend.%any%") {
+		name = strings.Replace(v.name, "%any%", "F_origin", 1)
+	}
+	if strings.HasPrefix(v.name, "ratecounter.%any%") {
+		name = strings.Replace(v.name, "%any%", "rc_verif", 1)
+	}
+	if v.get == "" || strings.HasPrefix(v.name, "director.%any%") {
+		nondet.Cover("not-readable")
+		return
+	}
+	want := agOn(v.on, scope)
+	src := agBackendDecl + "sub vcl_" + scope + " {\n  #FASTLY " + strings.ToUpper(scope) + "\n  log " + name + ";\n}\n"
+	if agHostBound(name) {
+		errs, ok := agLintErrors(src)
+		nondet.Assert(ok && (len(errs) == 0) == want, "reading "+name+" in vcl_"+scope+": the linter's verdict differs from the reference table")
+		nondet.Cover("linter-only")
+		return
+	}
+	accepted, err, ok := agLintAndRun(src, si, nil)
+	nondet.Assert(ok, "the program does not parse")
+	if !ok {
+		return
+	}
+	nondet.Observe("get", name, scope, accepted, want, agErrLine(err))
+	nondet.Assert(accepted == want, "reading "+name+" in vcl_"+scope+": the linter's verdict differs from the reference table")
+	if accepted {
+		nondet.Assert(err == nil, "reading "+name+" in vcl_"+scope+": accepted by the linter, fails in the simulator")
+		nondet.Cover("accepted")
+	} else {
+		nondet.Cover("rejected")
+	}
+}
+
+func agSetValue(i *Interpreter, t string) {
+	switch t {
+	case "INTEGER":
+		i.localVars["var.v"] = &value.Integer{Value: nondet.Int64("val")}
+	case "STRING":
+		i.localVars["var.v"] = &value.String{Value: nondet.String("val", 2)}
+	case "BOOL":
+		i.localVars["var.v"] = &value.Boolean{Value: nondet.Bool("val")}
+	case "RTIME":
+		i.localVars["var.v"] = &value.RTime{Value: time.Duration(nondet.Int64("val"))}
+	}
+}
+
+// VerifPredefinedSet: `set V = var.v` (var.v of V's declared set type, any
+// value) and `unset V` in scope SCOPE: accepted by the linter exactly when the
+// table allows it, and then executed by the simulator.
+func VerifPredefinedSet() {
+	si := nondet.Param("SCOPE")
+	scope := agScopes[si]
+	v := zzPvars[nondet.Choice("v", len(zzPvars))]
+	unset := nondet.Bool("unset")
+	name := strings.Replace(v.name, "%any%", "X-Verif", 1)
+	if strings.Contains(v.name, "%any%") && !strings.Contains(v.name, ".http.") {
+		nondet.Cover("skipped")
+		return
+	}
+	var stmt, decl string
+	want := agOn(v.on, scope)
+	if unset {
+		want = want && v.unset
+		stmt = "unset " + name + ";"
+	} else {
+		want = want && v.set != ""
+		t := v.set
+		if t == "" {
+			t = v.get
+		}
+		switch t {
+		case "INTEGER", "STRING", "BOOL", "RTIME":
+			decl = "declare local var.v " + t + ";\n  "
+			stmt = "set " + name + " = var.v;"
+		case "REQBACKEND", "BACKEND":
+			stmt = "set " + name + " = F_origin;"
+		default:
+			nondet.Cover("skipped")
+			return
+		}
+	}
+	src := agBackendDecl + "sub vcl_" + scope + " {\n  #FASTLY " + strings.ToUpper(scope) + "\n  " + decl + stmt + "\n}\n"
+	if agHostBound(name) {
+		errs, ok := agLintErrors(src)
+		nondet.Assert(ok && (len(errs) == 0) == want, "setting / unsetting "+name+" in vcl_"+scope+": the linter's verdict differs from the reference table")
+		nondet.Cover("linter-only")
+		return
+	}
+	accepted, err, ok := agLintAndRun(src, si, func(i *Interpreter) {
+		if decl != "" {
+			agSetValue(i, strings.Fields(decl)[3][:len(strings.Fields(decl)[3])-1])
+		}
+	})
+	nondet.Assert(ok, "the program does not parse")
+	if !ok {
+		return
+	}
+	nondet.Observe("set", name, scope, unset, accepted, want, agErrLine(err))
+	what := "setting "
+	if unset {
+		what = "unsetting "
+	}
+	nondet.Assert(accepted == want, what+name+" in vcl_"+scope+": the linter's verdict differs from the reference table")
+	if accepted {
+		nondet.Assert(err == nil, what+name+" in vcl_"+scope+": accepted by the linter, fails in the simulator")
 		nondet.Cover("accepted")
 	} else {
 		nondet.Cover("rejected")
